@@ -77,6 +77,14 @@ def createLink (tmp final : Name) (d : Bytes) : List Sys := writeFile tmp d ++ [
 /-- `YAMLAccountManager.Update` with a changed login: rename the file, then replace it atomically. -/
 def renameUpdate (tmp old new : Name) (d : Bytes) : List Sys := .rename old new :: tempRename tmp new d
 
+/-- `YAMLAccountManager.Update` as a whole: same login → atomic replace; changed login → refused without any
+    call when the new login already exists (`fix: 5d2c023`; the code tests its in-memory table, which agrees
+    with the directory – C15), otherwise rename + atomic replace. -/
+def updateProg (tmp : Name) (fs : FS) (old new : Name) (d : Bytes) : List Sys :=
+  if old = new then tempRename tmp new d
+  else if (get fs new).isSome then []
+  else renameUpdate tmp old new d
+
 /-- NEGATIVE WITNESS program: `os.WriteFile` directly on the live file. -/
 def directWrite (p : Name) (new : Bytes) : List Sys := writeFile p new
 
